@@ -37,7 +37,35 @@ def run(chk):
     absence(chk, prog, cg)
     events_not_dropped(chk, prog)
     slicing_controls(chk, prog, names, cg, fa)
+    clock_advance(chk, prog, names, cg)
     return chk.finish(EXPL)
+
+
+def clock_advance(chk, prog, names, cg):
+    """T-WRITERS/clock-advance: emulated time moves only with the CPU's bus cycles.  The functions that call the
+    controller's bus methods which advance the frame clock (wait_internal, wait_mreq, wait_no_mreq, read_io, write_io)
+    are the CPU core (crate rustzx-z80) and the controller itself — never the host-facing driver loop, whose shortcuts
+    (a halted CPU, maximum-speed mode, a time budget) would make the result depend on how the host slices execution."""
+    chk.rule("T-WRITERS/clock-advance", "callers of the clock-advancing bus methods are the CPU core and the controller only")
+    n = 0
+    for meth in ("wait_internal", "wait_mreq", "wait_no_mreq", "read_io", "write_io"):
+        try:
+            target = names.bus(meth)
+        except KeyError:
+            chk.undecided_("T-WRITERS/clock-advance/%s/anchor" % meth, "the controller's Z80Bus::%s was not found" % meth)
+            continue
+        trait_item = "rustzx_z80::bus::Z80Bus::" + meth
+        callers = set()
+        for s_ in list(cg.callers_of(target)) + list(cg.callers_of(trait_item)):
+            if s_.kind == "call":
+                callers.add(cc.strip_closure(s_.fn.path))
+        bad = sorted(c for c in callers if not (c.startswith("rustzx_z80::") or c.startswith("<rustzx_z80::") or "ZXController" in c))
+        chk.check(not bad, "T-WRITERS/clock-advance/%s" % meth,
+                  "%s is called from %s: emulated time must advance only through the CPU's bus cycles (CPU core and controller)" % (
+                      meth, [b.split("::")[-1] + " (" + "::".join(b.split("::")[-3:-1]) + ")" for b in bad]))
+        n += len(callers)
+    chk.count("clock-advance-callers", n)
+    chk.floor("clock-advance-callers", 5)
 
 
 def slicing_controls(chk, prog, names, cg, fa):
